@@ -2,4 +2,4 @@ From Capy Require Import Common.Util Model.Constness Spec.ConstSpec.
 Require Extraction.
 Require Import ExtrOcamlBasic.
 Extraction Language OCaml.
-Separate Extraction nat positive N Z get_const const_data array_len discriminant comptime_arg global_body wf has_char has_data.
+Separate Extraction nat positive N Z get_const const_data array_len discriminant comptime_arg global_body wf has_char has_data array_len_w discriminant_w comptime_arg_w.
